@@ -286,6 +286,27 @@ class Inliner:
                 return None
             env[body[0].targets[0].id] = v0
             body = body[1:]
+        # `if c: return A` / `return B` (or the else form) is the
+        # conditional expression `A if c else B`
+        if len(body) in (1, 2) and isinstance(body[0], ast.If) and len(
+                body[0].body) == 1 and isinstance(
+                    body[0].body[0], ast.Return) and \
+                body[0].body[0].value is not None and not any(
+                    isinstance(n, (ast.Call, ast.Yield, ast.YieldFrom,
+                                   ast.Await, ast.Lambda, ast.NamedExpr))
+                    for n in ast.walk(body[0].test)):
+            other = None
+            if len(body) == 2 and not body[0].orelse and isinstance(
+                    body[1], ast.Return) and body[1].value is not None:
+                other = body[1].value
+            elif len(body) == 1 and len(body[0].orelse) == 1 and isinstance(
+                    body[0].orelse[0], ast.Return) and \
+                    body[0].orelse[0].value is not None:
+                other = body[0].orelse[0].value
+            if other is not None:
+                body = [ast.copy_location(ast.Return(ast.copy_location(
+                    ast.IfExp(body[0].test, body[0].body[0].value, other),
+                    body[0])), body[0])]
         if len(body) == 1 and isinstance(body[0], ast.Return) and \
                 body[0].value is not None:
             v = body[0].value
@@ -366,6 +387,11 @@ class Inliner:
             s.test = T().visit(s.test)
         elif isinstance(s, ast.Raise) and s.exc is not None:
             s.exc = T().visit(s.exc)
+        elif isinstance(s, (ast.With, ast.AsyncWith)):
+            # `with self.guard(flag):` where guard() returns one of two
+            # context managers
+            for it in s.items:
+                it.context_expr = T().visit(it.context_expr)
         return s
 
     def _inline_cm(self, s, stack, depth):
